@@ -323,7 +323,12 @@ def repairQueryP (t : Toggles) (p : Program) : Nat → Key → Caller → MP Uni
             | some xn => newObs := newObs ++ [(x, { o with tfc := xn.tfc })]
             | none => newObs := newObs ++ [(x, o)]
         modifyS fun s => { s with dirty := cleaned.foldl (fun d c => removePair (k, c) d) s.dirty }
-        setNode k { n with tfc := newTfc, obs := newObs, lastVerified := (← getS).epoch }
+        let tfcChanged := t.f1r && n.kind == .projection && newTfc != n.tfc
+        if tfcChanged then
+          dirtyPropagate (fuel + (← getS).back.length + 2) [k]
+        let nowC := (← getS).epoch
+        setNode k { n with tfc := newTfc, obs := newObs, lastVerified := nowC,
+                           pendingBP := if tfcChanged then some nowC else n.pendingBP }
         publish   -- `clean_query`: submit_write_buffer(tx)
         popComputing k
 
@@ -379,7 +384,7 @@ def executeQueryP (t : Toggles) (p : Program) : Nat → Key → Bool → Caller 
     let needBP ← match old with
       | some o =>
         if (o.kind == .firewall || o.kind == .projection) && isRecompute then
-          if o.value != value then
+          if o.value != value || (t.f1r && o.kind == .projection && o.tfc != comp.tfc) then
             dirtyPropagate (fuel + (← getS).back.length + 2) [k]
             pure true
           else pure false
